@@ -88,12 +88,12 @@ struct Gen {
     static const char* kinds[] = {"AddMember", "AddMember", "AddMember", "AddMember", "AddMember", "AddMember", "RemoveMember", "RemoveMember", "RemoveMember", "RemoveMember",
                                   "EraseMember", "MemberReserve", "PushBack", "PushBack", "PushBack", "PushBack", "PopBack", "PopBack", "Erase", "Erase", "Reserve", "Clear",
                                   "Assign", "Assign", "SetNull", "SetBool", "SetInt", "SetUint", "SetDouble", "SetStr", "SetStr", "SetArray", "SetObject",
-                                  "CopyFrom", "CopyFrom", "MoveNode", "SwapNode", "CreateMap", "CreateMap", "CreateMap", "DestroyMap", "AtPointer", "AtPointer", "Lookup", "Build", "PushBackN", "AddMemberN"};
+                                  "CopyFrom", "CopyFrom", "MoveNode", "SwapNode", "CreateMap", "CreateMap", "CreateMap", "DestroyMap", "AtPointer", "AtPointer", "Lookup", "Build", "PushBackN", "AddMemberN", "CtorAssign"};
     const char* k = kinds[r.below(sizeof(kinds) / sizeof(kinds[0]))];
     Op& op = add(k);
     op.a.push_back(slot());
     std::string kn = k;
-    bool destructive = kn.compare(0, 3, "Set") == 0 || kn == "Assign" || kn == "Build" || kn == "Clear" || kn == "CopyFrom";
+    bool destructive = kn.compare(0, 3, "Set") == 0 || kn == "Assign" || kn == "CtorAssign" || kn == "Build" || kn == "Clear" || kn == "CopyFrom";
     std::string pth = path();
     if (destructive && pth.empty() && !r.chance(1, 8)) { pth += (char)r.below(256); if (r.chance(1, 2)) pth += (char)r.below(256); }
     op.s.push_back(pth);
@@ -105,6 +105,7 @@ struct Gen {
     else if (kn == "PushBack") op.s.push_back(val(r.chance(1, 4) ? 2 : 1));
     else if (kn == "Assign" || kn == "Build") { op.a.push_back((int64_t)r.below(3)); op.s.push_back(val(kn == "Build" ? 3 : 2)); }
     else if (kn == "SetBool") op.a.push_back((int64_t)r.below(2));
+    else if (kn == "CtorAssign") { op.a.push_back((int64_t)r.below(9)); op.a.push_back(r.chance(1, 2) ? r.range(-70000, 70000) : (int64_t)r.next()); }
     else if (kn == "SetInt") op.a.push_back(r.chance(1, 2) ? r.range(-1000, 1000) : (int64_t)r.next());
     else if (kn == "SetUint") op.a.push_back((int64_t)(r.chance(1, 2) ? r.below(100) : r.next()));
     else if (kn == "SetDouble") op.a.push_back((int64_t)model::gen_double_bits(r, go.nonfinite));
